@@ -189,13 +189,32 @@ def props(pid, timeout=600):
     return res
 
 
+def table_closure(pid, table_ids=None):
+    """the tables a property's Coq files depend on, directly or through another property's files they import
+    (C02 imports C04.Model, which computes on gen.T04): all of them must be regenerated from the current source"""
+    want, seen, todo = set(table_ids or []), set(), [pid]
+    while todo:
+        q = todo.pop()
+        if q in seen:
+            continue
+        seen.add(q)
+        for f in glob.glob(os.path.join(COQ, q, '*.v')):
+            text = strip_comments(open(f, encoding='utf-8').read())
+            want.update(re.findall(r'\bgen\.(T\d\d)\b', text))
+            for m in re.finditer(r'\b(C\d\d)\.[A-Z]\w*', text):
+                if m.group(1) not in seen:
+                    todo.append(m.group(1))
+    gen_tables._load_tables()
+    return sorted(t for t in want if t in gen_tables.GENERATORS)
+
+
 def build_for(pid, table_ids=None):
     """everything ./check needs for one property.
     returns dict(tables, coq_ok, model_ok, props, log, gate)"""
     out = {'tables': None, 'shape_error': None, 'model_ok': False, 'lemmas_ok': False, 'props': None, 'log': '', 'gate': []}
     with Lock():
         try:
-            out['tables'] = prepare(table_ids)
+            out['tables'] = prepare(table_closure(pid, table_ids) if table_ids is not None else None)
         except gen_tables.Shape as e:
             out['shape_error'] = str(e)
             out['log'] = 'gen_tables shape error: %s' % e
